@@ -11,6 +11,7 @@ CFG = {
     "exhaustive": {"quick": False, "thorough": False},
     "exhaustive_note": "part 1 enumerates the whole boundary pool of doubles for the three number writers; the font space itself is sampled",
     "timeout": {"quick": 600, "thorough": 7200},
+    "search_timeout": 90,
     "trusted_base": COMMON_TRUST + [
         "the plist crate: XML plist writer/reader round trip of values (strings incl. blanks and line breaks, integers, reals, data, dates, nested containers); "
         "Rust's shortest round-trip f64 formatting/parsing (a value written as <real> reads back bit-identically) - both are parameters of the model, exercised on every case by the oracle",
